@@ -1,6 +1,93 @@
 package main
 
-import "verifh/kit/vio"
+import (
+	"encoding/hex"
+	"fmt"
 
-func c24Neo(u *universe, i int, row *c24Row, r *vio.RNG) (o c24Obs)  { o.I = i; o.Setup = "not built"; return }
-func c24Neo3(u *universe, i int, row *c24Row, r *vio.RNG) (o c24Obs) { o.I = i; o.Setup = "not built"; return }
+	nhelper "github.com/joeqian10/neo-gogogo/helper"
+	nmpt "github.com/joeqian10/neo-gogogo/mpt"
+	n3crypto "github.com/joeqian10/neo3-gogogo/crypto"
+	n3helper "github.com/joeqian10/neo3-gogogo/helper"
+	n3io "github.com/joeqian10/neo3-gogogo/io"
+	n3mpt "github.com/joeqian10/neo3-gogogo/mpt"
+	n3models "github.com/joeqian10/neo3-gogogo/rpc/models"
+	cstates "github.com/polynetwork/poly/core/states"
+	"github.com/polynetwork/poly/native/service/governance/neo3_state_manager"
+	"github.com/polynetwork/poly/native/service/header_sync/neo"
+	"github.com/polynetwork/poly/native/service/header_sync/neo3"
+	"github.com/polynetwork/poly/native/service/utils"
+
+	"verifh/kit/nativekit"
+	"verifh/kit/vio"
+)
+
+// c24Neo: the tracked m-of-n script is installed by a real genesis header; the state-root message carries the
+// witness described by the row.
+func c24Neo(u *universe, i int, row *c24Row, r *vio.RNG) (o c24Obs) {
+	o.I = i
+	w := u.neoWorld()
+	tracked := newNScript(r, row.N, row.M, false)
+	if err := w.genesis(r, uint32(r.Intn(1000)), tracked.neoHash()); err != nil {
+		o.Setup = "genesis: " + err.Error()
+		return
+	}
+	offered := tracked.variant(r, row.Script)
+	var pre, root nhelper.UInt256
+	copy(pre[:], r.Bytes(32))
+	copy(root[:], r.Bytes(32))
+	msg := &neo.NeoCrossChainMsg{StateRoot: &nmpt.StateRoot{Version: 0, Index: uint32(1000 + r.Intn(100000)), PreHash: pre.String(), StateRoot: root.String()}}
+	unsigned, err := msg.GetMessage()
+	vio.Must(err)
+	alt := append([]byte{}, unsigned...)
+	alt[5] ^= 1
+	var sigs [][]byte
+	for _, sg := range row.Sigs {
+		sigs = append(sigs, rawSig(r, tracked.signer(r, sg), unsigned, alt))
+	}
+	msg.Witness.InvocationScript = hex.EncodeToString(neoInvocation(sigs))
+	msg.Witness.VerificationScript = hex.EncodeToString(offered.neoScript())
+	o.Concr = fmt.Sprintf("index=%d offered=%d-of-%d", msg.Index, offered.m, len(offered.keys))
+	o.Panic = vio.Safe(func() {
+		ns := w.u.sb.Service(nativekit.Tx(), nil)
+		o.Accept = neo.VerifyCrossChainMsgSig(ns, w.chain, msg) == nil
+		w.u.sb.Cache.Reset()
+	})
+	o.Entry, o.Stored = o.Accept, o.Accept
+	return
+}
+
+// c24Neo3: the state validators are the n tracked keys (stored the way neo3_state_manager stores them); the expected
+// script is n - (n-1)/3 of them, computed by the code under test.
+func c24Neo3(u *universe, i int, row *c24Row, r *vio.RNG) (o c24Obs) {
+	o.I = i
+	w := u.neo3World(r)
+	tracked := newNScript(r, row.N, row.M, true)
+	var svs []string
+	for _, p := range r.Perm(len(tracked.keys)) { // registration order is not the script order
+		svs = append(svs, hex.EncodeToString(tracked.keys[p].k3.PublicKey.EncodePoint(true)))
+	}
+	ns0 := w.u.sb.Service(nativekit.Tx(), nil)
+	ns0.GetCacheDB().Put(utils.ConcatKey(utils.Neo3StateManagerContractAddress, []byte(neo3_state_manager.STATE_VALIDATOR)),
+		cstates.GenRawStorageItem(neo3_state_manager.SerializeStringArray(svs)))
+	w.u.sb.Cache.Commit()
+	offered := tracked.variant(r, row.Script)
+	msg := &neo3.NeoCrossChainMsg{StateRoot: &n3mpt.StateRoot{Version: 0, Index: uint32(1000 + r.Intn(100000)), RootHash: "0x" + n3helper.UInt256FromBytes(r.Bytes(32)).String()}}
+	bw := n3io.NewBufBinaryWriter()
+	msg.SerializeUnsigned(bw.BinaryWriter)
+	vio.Must(bw.Err)
+	signed := neo3Message(w.magic, bw.Bytes())
+	alt := neo3Message(w.magic+1, bw.Bytes()) // the same root signed for another network
+	var sigs [][]byte
+	for _, sg := range row.Sigs {
+		sigs = append(sigs, rawSig(r, tracked.signer(r, sg), signed, alt))
+	}
+	msg.Witnesses = []n3models.RpcWitness{{Invocation: n3crypto.Base64Encode(neo3Invocation(sigs)), Verification: n3crypto.Base64Encode(offered.neo3Script())}}
+	o.Concr = fmt.Sprintf("magic=%d index=%d offered=%d-of-%d", w.magic, msg.Index, offered.m, len(offered.keys))
+	o.Panic = vio.Safe(func() {
+		ns := w.u.sb.Service(nativekit.Tx(), nil)
+		o.Accept = neo3.VerifyCrossChainMsgSig(ns, w.magic, msg) == nil
+		w.u.sb.Cache.Reset()
+	})
+	o.Entry, o.Stored = o.Accept, o.Accept
+	return
+}
